@@ -22,17 +22,37 @@ def main():
     os.makedirs(GEN_DIR, exist_ok=True)
     rc = 0
     only = sys.argv[1:]
+    import json
+    ownf = os.path.join(GEN_DIR, '.owners.json')
+    try:
+        owners = json.load(open(ownf))
+    except Exception:
+        owners = {}
     for modname in MODULES:
         if only and modname not in only:
             continue
         try:
             mod = importlib.import_module('tools.gen.' + modname)
+            mod_files = []
             for fname, text in mod.generate().items():
                 write_if_changed(fname, text)
+                mod_files.append(fname)
         except Exception:
             traceback.print_exc()
             print('gen: FAILED', modname)
             rc = 1
+            continue
+        owners[modname] = sorted(mod_files)
+    # which Gen files each translator module writes (kept from the last run in which it succeeded),
+    # so that a translator failure is charged only to the properties that import its output
+    old = None
+    try:
+        old = open(ownf).read()
+    except Exception:
+        pass
+    new = json.dumps(owners, indent=1, sort_keys=True)
+    if new != old:
+        open(ownf, 'w').write(new)
     return rc
 
 if __name__ == '__main__':
